@@ -84,11 +84,11 @@ Qed.
 Lemma back_same p : same p (back p).
 Proof. unfold same, back, set_i. simpl. auto. Qed.
 
-Lemma unionLoop_same : forall fuel neg s b p r p',
-  unionLoop ptn fuel neg s b p = Ok (r, p') -> same p p'.
+Lemma unionLoop_same : forall fuel first neg s b p r p',
+  unionLoop ptn fuel first neg s b p = Ok (r, p') -> same p p'.
 Proof.
-  induction fuel; intros neg s b p r p' H; simpl in H; [discriminate|].
-  destruct (b =? 93).
+  induction fuel; intros first neg s b p r p' H; simpl in H; [discriminate|].
+  destruct ((b =? 93) && negb first).
   - injection H as _ H. subst. apply same_refl.
   - destruct (b =? 37).
     + apply bind_ok in H. destruct H as ([b1 p1] & H1 & H). apply next_same in H1.
@@ -116,14 +116,8 @@ Proof.
     - apply bind_ok in H2. destruct H2 as ([b' p'0] & H2 & H3). apply next_same in H2.
       injection H3 as _ _ H3. subst. exact H2.
     - injection H2 as _ _ H2. subst. apply same_refl. }
-  apply bind_ok in H. destruct H as ([[s0 b3] p3] & H3 & H).
-  assert (S3 : same p2 p3).
-  { destruct (b2 =? 93).
-    - apply bind_ok in H3. destruct H3 as ([b' p'0] & H3 & H4). apply next_same in H3.
-      injection H4 as _ _ H4. subst. exact H3.
-    - injection H3 as _ _ H3. subst. apply same_refl. }
   apply unionLoop_same in H.
-  eapply same_trans; [exact H1|]. eapply same_trans; [exact S2|]. eapply same_trans; eauto.
+  eapply same_trans; [exact H1|]. eapply same_trans; [exact S2|]. exact H.
 Qed.
 
 Lemma getCharClass_same p r p' : getCharClass ptn p = Ok (r, p') -> same p p'.
@@ -287,7 +281,9 @@ Proof.
   { apply bind_ok in H. destruct H as ([c0 p2] & H2 & H). apply next_same in H2.
     pose proof (Inv_same _ _ H2 I1) as I2.
     destruct (c0 =? 102).
-    - apply bind_ok in H. destruct H as ([s0 p3] & H3 & H). apply getCharClass_same in H3.
+    - apply bind_ok in H. destruct H as (b0 & _ & H).
+      destruct (b0 =? 91); [|discriminate].
+      apply bind_ok in H. destruct H as ([s0 p3] & H3 & H). apply getCharClass_same in H3.
       injection H as H. subst p'. apply Inv_emit_plain; [reflexivity|]. eapply Inv_same; eauto.
     - destruct (c0 =? 98).
       + apply bind_ok in H. destruct H as ([op p3] & H3 & H). apply next_same in H3.
